@@ -21,7 +21,7 @@ func main() {
 	if thorough {
 		n = 1500
 	}
-	vlib.ExecConformance(c, "C01", bins, vs, rand.New(rand.NewSource(vlib.Seed())), n, vlib.ExecMode{Faults: true, DirFaults: true})
+	vlib.ExecConformance(c, "C01", bins, vs, rand.New(rand.NewSource(vlib.Seed())), n, vlib.ExecMode{Faults: true, DirFaults: true, Corpus: vlib.MergeCorpus("C01")})
 	fmt.Fprintln(os.Stderr, "done")
 	c.Finish()
 }
